@@ -247,6 +247,10 @@ func ext۰reflect۰Value۰Kind(fr *frame, args []value) value {
 
 func ext۰reflect۰Value۰String(fr *frame, args []value) value {
 	// Signature: func (reflect.Value) string
+	switch v := rV2V(args[0]).(type) {
+	case string, symstr, opaqueStr:
+		return v
+	}
 	return toString(rV2V(args[0]))
 }
 
@@ -361,7 +365,15 @@ func ext۰reflect۰Value۰Index(fr *frame, args []value) value {
 
 func ext۰reflect۰Value۰Bool(fr *frame, args []value) value {
 	// Signature: func (reflect.Value) bool
-	return rV2V(args[0]).(bool)
+	switch v := rV2V(args[0]).(type) {
+	case bool:
+		return v
+	case *Sym:
+		if v.K == types.Bool {
+			return v
+		}
+	}
+	panic("reflect: call of reflect.Value.Bool on non-bool Value")
 }
 
 func ext۰reflect۰Value۰CanAddr(fr *frame, args []value) value {
@@ -402,12 +414,16 @@ func ext۰reflect۰Value۰Field(fr *frame, args []value) value {
 func ext۰reflect۰Value۰Float(fr *frame, args []value) value {
 	// Signature: func (reflect.Value) float64
 	switch v := rV2V(args[0]).(type) {
+	case *Sym:
+		if _, _, fl := kindInfo(v.K); fl {
+			return symConvNum(v, types.Float64)
+		}
 	case float32:
 		return float64(v)
 	case float64:
 		return float64(v)
 	}
-	panic("reflect.Value.Float")
+	panic("reflect: call of reflect.Value.Float on non-float Value")
 }
 
 func ext۰reflect۰Value۰Interface(fr *frame, args []value) value {
@@ -418,6 +434,11 @@ func ext۰reflect۰Value۰Interface(fr *frame, args []value) value {
 func ext۰reflect۰Value۰Int(fr *frame, args []value) value {
 	// Signature: func (reflect.Value) int64
 	switch x := rV2V(args[0]).(type) {
+	case *Sym:
+		if _, _, fl := kindInfo(x.K); !fl && x.K != types.Bool {
+			return symConvNum(x, types.Int64)
+		}
+		panic(fmt.Sprintf("reflect.(Value).Int of kind %d", x.K))
 	case int:
 		return int64(x)
 	case int8:
@@ -543,4 +564,69 @@ func initReflect(i *interpreter) {
 	i.errorMethods = methodSet{
 		"Error": newMethod(i.reflectPackage, errorType, "Error"),
 	}
+}
+
+// (reflect.Value).Call with the documented precondition: each argument must be
+// assignable to the parameter type, otherwise reflect panics.
+func ext۰reflect۰Value۰Call(fr *frame, args []value) value {
+	fnV := rV2V(args[0])
+	sig, ok := rV2T(args[0]).t.Underlying().(*types.Signature)
+	if !ok {
+		panic("reflect: call of reflect.Value.Call on non-func Value")
+	}
+	in, _ := args[1].([]value)
+	if len(in) < sig.Params().Len() {
+		panic("reflect: Call with too few input arguments")
+	}
+	if len(in) > sig.Params().Len() {
+		panic("reflect: Call with too many input arguments")
+	}
+	cargs := make([]value, len(in))
+	for k := range in {
+		at := rV2T(in[k]).t
+		pt := sig.Params().At(k).Type()
+		if at == nil {
+			panic("reflect: Call using zero Value argument")
+		}
+		if !types.AssignableTo(at, pt) {
+			panic(fmt.Sprintf("reflect: Call using %s as type %s", at, pt))
+		}
+		v := rV2V(in[k])
+		if _, isIface := pt.Underlying().(*types.Interface); isIface {
+			if _, already := at.Underlying().(*types.Interface); !already {
+				v = iface{t: at, v: v}
+			}
+		}
+		cargs[k] = v
+	}
+	res := call(fr.i, fr, token.NoPos, fnV, cargs)
+	out := []value{}
+	switch sig.Results().Len() {
+	case 0:
+	case 1:
+		out = append(out, makeReflectValue(sig.Results().At(0).Type(), res))
+	default:
+		for k, r := range res.(tuple) {
+			out = append(out, makeReflectValue(sig.Results().At(k).Type(), r))
+		}
+	}
+	return out
+}
+
+// (reflect.Value).Convert for basic numeric kinds and identical types.
+func ext۰reflect۰Value۰Convert(fr *frame, args []value) value {
+	st := rV2T(args[0]).t
+	dt := args[1].(iface).v.(rtype).t
+	if !types.ConvertibleTo(st, dt) {
+		panic(fmt.Sprintf("reflect.Value.Convert: value of type %s cannot be converted to type %s", st, dt))
+	}
+	if _, ok := dt.Underlying().(*types.Interface); ok {
+		return makeReflectValue(dt, iface{t: st, v: rV2V(args[0])})
+	}
+	return makeReflectValue(dt, conv(dt, st, rV2V(args[0])))
+}
+
+func init() {
+	externals["(reflect.Value).Call"] = ext۰reflect۰Value۰Call
+	externals["(reflect.Value).Convert"] = ext۰reflect۰Value۰Convert
 }
